@@ -168,8 +168,9 @@ def judge(case, history):
         ref = ref_obs(case, ())
         if oc.text != oo.text:
             viols.append(('initial: clone generates different code', _textdiff(oo.text, oc.text)))
+        stale = stale_links(orig, clone)
         d = ue.diff_types(oo.types, oc.types)
-        if d:
+        if d and link_kind_of(d[0]) not in stale:      # a link-rendered difference is reported once, as the stale link
             viols.append((f'initial: clone has different symbol types: {d[0]}', d[1]))
         if ref is not None and oo.text != ref.text:
             viols.append(('initial: cloning changed the code of the original', _textdiff(ref.text, oo.text)))
@@ -177,7 +178,7 @@ def judge(case, history):
             for f in _new_foreign(o, ref):
                 viols.append((f'initial: symbol of the {names[side]} scoped outside its own scope chain: {f[4]}',
                               f'{f[1]!r} is scoped in {f[2]} {f[3]!r}, which is not in the scope chain of its place'))
-        for kind, (symname, where) in sorted(stale_links(orig, clone).items()):
+        for kind, (symname, where) in sorted(stale.items()):
             viols.append((f'initial: {kind} link of the clone points into {where}',
                           f'symbol {symname} of the clone: its {kind} is an object of {where}'))
         return 'ok', hash((oo.text, oo.types, oc.text, oc.types)), _dedupe(viols)
@@ -356,9 +357,7 @@ def run(ctx):
     ctx.require(all(valid), f'zoo entries rejected by gfortran or parse-tree cache not transparent: {[e.name for e, ok in zip(zoo, valid) if not ok]}')
     depth = 2
     targets = seeded_order(targets_for(zoo, enriched=not ctx.quick), ctx.seed)
-    deep = []
     stats = []
-    total = dict(states=0, transitions=0, changed=0)
     viols = []
 
     def explore(tg, d):
@@ -371,8 +370,6 @@ def run(ctx):
 
     res = explore(targets, depth)
     viols += res['violations']
-    total['states'] += res['states'] - 1
-    total['transitions'] += res['transitions']
     stats.append(dict(targets=len(targets), depth=depth, states=res['states'] - 1, transitions=res['transitions'] - len(targets)))
     capped = res['capped']
     if not ctx.quick:
@@ -380,8 +377,6 @@ def run(ctx):
         rich = [t for t in targets if not t['enrich'] and t['name'] in DEEP_NAMES and len(t['path']) <= 1]
         res3 = explore(rich, 3)
         viols += res3['violations']
-        total['states'] += res3['states'] - 1
-        total['transitions'] += res3['transitions']
         stats.append(dict(targets=len(rich), depth=3, states=res3['states'] - 1, transitions=res3['transitions'] - len(rich)))
         capped = capped or res3['capped']
     by_sig = {}
